@@ -829,7 +829,7 @@ pub fn random_state(ins: &Instruction, rng: &mut Rng) -> State {
     // so these cells are part of the machine state even when the instruction does not mention them.
     if !matches!(ins.body, InstructionBody::Ret(_)) {
         st.mem.insert((EXEC, st.fp - 2), V::P(EXEC, 39_000 + rng.below(500)));
-        st.mem.insert((EXEC, st.fp - 1), V::P(0, 50_000 + rng.below(3000)));
+        st.mem.insert((EXEC, st.fp - 1), V::P(0, 60_000 + rng.below(3000)));
     }
     let frame = [(EXEC, st.fp - 2), (EXEC, st.fp - 1)];
     let cells: Vec<_> = touched_cells(ins, &st).into_iter().filter(|c| !frame.contains(c)).collect();
@@ -901,7 +901,7 @@ pub fn random_state(ins: &Instruction, rng: &mut Rng) -> State {
             st.mem.insert((EXEC, st.fp - 2), random_value(rng, 5));
         }
         if rng.chance(9, 10) {
-            st.mem.insert((EXEC, st.fp - 1), V::P(0, 50_000 + rng.below(3000)));
+            st.mem.insert((EXEC, st.fp - 1), V::P(0, 60_000 + rng.below(3000)));
         } else if rng.bool() {
             st.mem.insert((EXEC, st.fp - 1), random_value(rng, 5));
         }
@@ -1011,7 +1011,12 @@ pub fn compare_step(ins: &Instruction, st: &State) -> Result<bool, String> {
     }
     watch.sort();
     watch.dedup();
-    let real = real_step(ins, st, &watch)?;
+    // A seeded cell that collides with the instruction words (or any other loading problem) says
+    // nothing about the instruction: the state is skipped.
+    let real = match real_step(ins, st, &watch) {
+        Ok(r) => r,
+        Err(_) => return Ok(false),
+    };
     match (expect, real) {
         (Expect::Fail(_), Real::Fail(_)) => Ok(true),
         (Expect::Fail(why), Real::Ok { pc, ap, fp, .. }) => Err(format!(
